@@ -21,7 +21,7 @@ pub enum Adapter {
 
 #[derive(Clone, Copy, Debug, PartialEq, Eq, Serialize, Deserialize)]
 pub enum Scratch {
-    /// 4096 bytes
+    /// 4096 bytes (more when the stream is longer)
     Big,
     /// exactly what the messages need (measured with a big scratch)
     Exact,
@@ -56,7 +56,8 @@ pub struct C11Trace {
 
 type PcResult<T> = Result<T, postcard::Error>;
 
-const BIG: usize = 4096;
+/// size of the 'big' scratch: 4096 bytes, or more when the stream itself is longer
+const BIG_MIN: usize = 4096;
 
 // ---- adapters ---------------------------------------------------------------------------------
 
@@ -760,6 +761,8 @@ fn exec_c11(t: &C11Trace, out: &mut Outcome<C11Trace>) {
         }
     };
     let stream = Rc::new(stream);
+    #[allow(non_snake_case)]
+    let BIG: usize = BIG_MIN.max(stream.len() + 64).min(arena::RW - 16);
     // measure the scratch each message needs: big scratch, the trace's schedule without its
     // Interrupted steps (fatal on embedded-io, and the required scratch does not depend on them),
     // no fault
@@ -1081,6 +1084,31 @@ impl Scenario for C11 {
                 }
             })
             .collect();
+        // now and then one really large block (4 KiB .. 70 kB): lengths past 12 and 16 bits cross
+        // the writer, the reader and the scratch buffer in one piece
+        let large = rng.chance(1, 300) && !crate::runner::small();
+        let msgs: Vec<Msg> = if large {
+            let n = *rng.pick(&[4095usize, 4096, 4097, 16383, 16384, 65535, 65536, 70000]);
+            let data: Vec<u8> = (0..n).map(|i| (i as u8).wrapping_mul(31).wrapping_add(7)).collect();
+            let big = match rng.below(3) {
+                0 => Msg { shape: shape::Shape::Bytes, val: Val::Bytes(data) },
+                1 => Msg {
+                    shape: shape::Shape::Str,
+                    val: Val::Str(data.iter().map(|b| (b'a' + b % 26) as char).collect()),
+                },
+                _ => Msg {
+                    shape: shape::Shape::Tuple(vec![shape::Shape::U8, shape::Shape::Bytes, shape::Shape::Str]),
+                    val: Val::Seq(vec![Val::Uint(7), Val::Bytes(data), Val::Str("tail".into())]),
+                },
+            };
+            if rng.chance(1, 2) {
+                vec![big, Msg { shape: shape::Shape::U16, val: Val::Uint(300) }]
+            } else {
+                vec![big]
+            }
+        } else {
+            msgs
+        };
         let total: usize = msgs.iter().map(|m| m.ref_encode().len()).sum();
         let trailing = match rng.below(4) {
             0 => vec![],
@@ -1122,15 +1150,34 @@ impl Scenario for C11 {
             } else {
                 None
             },
-            wscript: gen_wscript(rng, std, intr_eio),
+            wscript: if large {
+                match rng.below(4) {
+                    0 => vec![],
+                    1 => vec![WStep::Accept(4096)],
+                    2 => vec![WStep::Accept(4095), WStep::Accept(1)],
+                    _ => vec![WStep::Accept(rng.range(1000, 70000))],
+                }
+            } else {
+                gen_wscript(rng, std, intr_eio)
+            },
             buffering: rng.chance(1, 3),
             flush_err: rng.chance(1, 12),
             wfault,
-            rscript: gen_rscript(rng, std, intr_eio),
+            rscript: if large {
+                match rng.below(4) {
+                    0 => vec![],
+                    1 => vec![RStep::Deliver(4096)],
+                    2 => vec![RStep::Deliver(65535), RStep::Deliver(1)],
+                    _ => vec![RStep::Deliver(rng.range(1000, 70000))],
+                }
+            } else {
+                gen_rscript(rng, std, intr_eio)
+            },
             rfault,
             scratch: match rng.below(5) {
                 0 | 1 => Scratch::Big,
                 2 => Scratch::Exact,
+                _ if large => Scratch::Size(total - rng.range(0, 3).min(total)),
                 _ => Scratch::Size(rng.small(40)),
             },
             place: if rng.chance(2, 3) { Place::End } else { Place::Start },
